@@ -157,12 +157,15 @@ class FitWorld(object):
                 d = op[1] if isinstance(op[1], dict) else self.point(op[1])
                 f.set_parameter_values(**d)
                 self.pv.update((p, float(v)) for p, v in d.items())
+                self.fixed.update((p, float(v)) for p, v in d.items() if p in self.fixed)  # a fixed parameter stays fixed, at the value it is given
                 self.fitted = False
             elif k == "setall":
                 vals = op[1] if not isinstance(op[1], str) else list(self.point(op[1]).values())
                 f.set_all_parameter_values(list(vals))
                 for p, v in zip(self.par_names, vals):
                     self.pv[p] = float(v)
+                    if p in self.fixed:
+                        self.fixed[p] = float(v)
                 self.fitted = False
             elif k == "fix":
                 if len(op) > 2 and op[2] is not None:
@@ -326,6 +329,13 @@ class FitWorld(object):
     def has_model_sources(self):
         return any(ref.KINDS[k][3] == "model" for k, en in self.sources.values())
 
+    def dispose(self):
+        """kafe2 fits are never freed once a minimizer object exists: the iminuit object (a C++ extension type the cycle collector
+        cannot traverse) holds the cost wrapper of the adapter that owns it. Explorers that build ~1e5 worlds per run break
+        that cycle by hand when they are done with a world (harness hygiene only - no observation is made afterwards)."""
+        release_fit(getattr(self, "fit", None))
+        self.fit = None
+
     # -- observation of the real fit ----------------------------------------------------
     def observe(self, name):
         """Public-API observation, canonicalised to plain python (lists/floats/None) or ('EXC', type)."""
@@ -339,6 +349,8 @@ class FitWorld(object):
                     return _strip_report(s.getvalue())
                 if name == "result_dict":
                     return canon(f.get_result_dict())
+                if name.endswith(":none"):  # only whether the quantity is reported at all
+                    return getattr(f, name[:-5]) is None
                 if name == "model":
                     v = f.y_model if self.ftype == "xy" else f.model
                 else:
@@ -348,6 +360,18 @@ class FitWorld(object):
             return ("EXC", "RecursionError")
         except Exception as e:  # noqa: BLE001
             return ("EXC", type(e).__name__)
+
+
+def release_fit(f):
+    """break the fit <-> fitter <-> minimizer <-> Minuit reference cycle of a fit that is not used any more"""
+    if f is None:
+        return
+    for sub in getattr(f, "fits", None) or getattr(f, "_fits", None) or []:
+        release_fit(sub)
+    try:
+        f._fitter._minimizer.__dict__.clear()
+    except Exception:  # noqa: BLE001
+        pass
 
 
 def d_all(world):
